@@ -24,11 +24,13 @@ const (
 	KConst
 	KNil
 	KNonNil
+	KSym // a symbolic, non-nil identity (e.g. "the user layer value")
 )
 
 type AV struct {
 	K AVKind
 	C constant.Value
+	S string
 }
 
 func (a AV) String() string {
@@ -39,6 +41,8 @@ func (a AV) String() string {
 		return "nil"
 	case KNonNil:
 		return "nonnil"
+	case KSym:
+		return "sym:" + a.S
 	}
 	return "T"
 }
@@ -46,6 +50,7 @@ func (a AV) String() string {
 func avBool(b bool) AV   { return AV{K: KConst, C: constant.MakeBool(b)} }
 func avInt(i int64) AV   { return AV{K: KConst, C: constant.MakeInt64(i)} }
 func avStr(s string) AV  { return AV{K: KConst, C: constant.MakeString(s)} }
+func avSym(s string) AV  { return AV{K: KSym, S: s} }
 func (a AV) IsTop() bool { return a.K == Top }
 func (a AV) Bool() (bool, bool) {
 	if a.K == KConst && a.C.Kind() == constant.Bool {
@@ -214,7 +219,10 @@ func foldBin(op token.Token, a, b AV) AV {
 	// nil comparisons
 	if op == token.EQL || op == token.NEQ {
 		isNilA, isNilB := a.K == KNil, b.K == KNil
-		nonA, nonB := a.K == KNonNil, b.K == KNonNil
+		nonA, nonB := a.K == KNonNil || a.K == KSym, b.K == KNonNil || b.K == KSym
+		if a.K == KSym && b.K == KSym {
+			return avBool((a.S == b.S) == (op == token.EQL))
+		}
 		if (isNilA && isNilB) || (isNilA && nonB) || (nonA && isNilB) {
 			eq := isNilA && isNilB
 			return avBool(eq == (op == token.EQL))
@@ -459,7 +467,7 @@ func (it *Interp) evalCall(s *istate, callee *ssa.Function, call *ssa.Call) AV {
 	}
 	r := results[0]
 	for _, x := range results[1:] {
-		if x.K != r.K || (x.K == KConst && constant.Compare(x.C, token.NEQ, r.C)) {
+		if x.K != r.K || (x.K == KConst && constant.Compare(x.C, token.NEQ, r.C)) || (x.K == KSym && x.S != r.S) {
 			return AV{}
 		}
 	}
